@@ -107,7 +107,8 @@ def prove(ob, second_solver=False, timeout_ms=None):
         reason = s.reason_unknown()
         status = 'undecided'
         smt2 = s.to_smt2()
-        c = run_cvc5(smt2)
+        cli_t = max(5, min(CLI_TIMEOUT_S, int((timeout_ms or Z3_TIMEOUT_MS) / 1000) * 2))
+        c = run_cvc5(smt2, cli_t)
         if c == 'unsat':
             status, backend = 'proved', 'cvc5'
         elif c == 'sat':
@@ -122,7 +123,7 @@ def prove(ob, second_solver=False, timeout_ms=None):
             else:
                 status, backend, reason = 'refuted', 'cvc5', 'cvc5 sat (no model extracted)'
         else:
-            zn = run_z3new(smt2)
+            zn = run_z3new(smt2, cli_t)
             if zn == 'unsat':
                 status, backend = 'proved', 'z3-new'
     if status == 'proved' and second_solver and backend == 'z3':
